@@ -185,6 +185,21 @@ pub fn run_history(line: &str) -> String {
                 };
                 format!("{resp} dl={dl} buf={}", hex(&h.buffer_after()))
             }
+            // rxk / rxck: like rx / rxc, but the application does not collect the downlink: it stays in the queue (depth 8); drain collects all
+            "rxk" | "rxck" => {
+                let bytes = unhex(a[1]);
+                let rf = rf_for(int::<u8>(a[3]));
+                let resp = if a[0] == "rxk" { h.handle_rx(&bytes, int::<i8>(a[2]), &rf) } else { h.handle_rxc(&bytes, int::<i8>(a[2]), &rf) };
+                format!("{resp} queued={} buf={}", h.downlinks.len(), hex(&h.buffer_after()))
+            }
+            "drain" => {
+                let mut v = vec![];
+                while !h.downlinks.is_empty() {
+                    let d = h.downlinks.remove(0);
+                    v.push(format!("{}:{}", d.fport, hex(&d.data)));
+                }
+                if v.is_empty() { "none".into() } else { v.join(",") }
+            }
             "rx2c" => h.rx2_complete(),
             "dr" => {
                 h.set_datarate(dr_of(int::<u8>(a[1])));
